@@ -71,6 +71,7 @@ func c14Tree(v, y string) core.Tree {
 		"setup-version-only.example":   c14Fill("SecAction \"id:900990,setvar:tx.crs_setup_version={D}\"\n", v, y),
 		"rules/signature-only.conf":    c14Fill("SecComponentSignature \"OWASP_CRS/{V}\"\n", v, y),
 		"rules/one-line.conf":          c14Fill("SecAction \"id:900990,ver:'OWASP_CRS/{V}',setvar:tx.crs_setup_version={D}\"\n", v, y),
+		"rules/crlf.conf":              strings.ReplaceAll(c14Fill(c14Markers, v, y), "\n", "\r\n"),
 		"rules/commented.conf":         c14Fill(c14Commented+c14Markers+c14Commented, v, y),
 		"rules/nonl.conf":              strings.TrimSuffix(c14Fill(c14Legacy, v, y), "\n"),
 		"plugins/deep/nested/p.conf":   c14Fill(c14Markers, v, y),
@@ -89,6 +90,9 @@ var c14Layouts = []struct {
 	Extra core.Tree
 	Fixed core.Tree
 }{
+	// a layout named "root:<dir>" puts the tree into <dir> below the sandbox
+	{"root:.crs", core.Tree{"util/modsec/extra.conf": c14Markers}, nil},
+	{"root:my crs [v4]", nil, nil},
 	{"symlink to a file outside the targets, first in rules/", nil, core.Tree{"LICENSE": "Apache\n", "rules/AAA-LICENSE": core.LinkPrefix + "../LICENSE"}},
 	{"crs-setup.conf linked to the example file", nil, core.Tree{"crs-setup.conf": core.LinkPrefix + "crs-setup.conf.example"}},
 	{"dangling symlink and link to a directory", nil, core.Tree{"rules/AAA-dangling": core.LinkPrefix + "nowhere", "AAA-plugins": core.LinkPrefix + "plugins", "plugins/AAA-up": core.LinkPrefix + ".."}},
@@ -96,6 +100,16 @@ var c14Layouts = []struct {
 	{"empty and deep directories", core.Tree{"a/b/c/d/e/f/g/h/deep.conf": c14Markers, "rules/sub/REQUEST-1.conf": c14Legacy}, core.Tree{"rules/AAA-empty/": "", "a/b/c/empty/": "", "rules/000.txt": "# OWASP CRS ver.4.0.0\n"}},
 	{"names with blanks and non-ASCII", core.Tree{"rules/with blank.conf": c14Markers, "rules/ünï.conf": c14Legacy, "my plugins/p q.example": c14Markers}, core.Tree{"rules/with blank.txt": "# OWASP CRS ver.4.0.0\n"}},
 	{"target names in odd places", core.Tree{"rules/a.conf.example": c14Markers, "rules/x.example.conf": c14Markers, "tests/t.conf": c14Legacy, "regex-assembly/r.conf": c14Markers}, core.Tree{"rules/conf.d/readme": "# OWASP CRS ver.4.0.0\n", "rules/a.conf.d/readme": "# OWASP CRS ver.4.0.0\n"}},
+}
+
+// c14NoCR: whether a file with CRLF line ends keeps them is not the property's subject (the tool writes LF);
+// the markers in it are. The CRLF file is compared without its carriage returns.
+func c14NoCR(t core.Tree) core.Tree {
+	c := t.Clone()
+	if v, ok := c["rules/crlf.conf"]; ok {
+		c["rules/crlf.conf"] = strings.ReplaceAll(v, "\r", "")
+	}
+	return c
 }
 
 type c14Fail struct {
@@ -191,8 +205,8 @@ func C14(r *core.Run) {
 				fail("markers-show-last-version", fmt.Sprintf("accepted version fails: exit %d %s", res.Exit, tailStr(res.Stderr, 200)), nil)
 				continue
 			}
-			if treeHash(got) != treeHash(want) {
-				d := diffTrees(want, got)
+			if treeHash(c14NoCR(got)) != treeHash(c14NoCR(want)) {
+				d := diffTrees(c14NoCR(want), c14NoCR(got))
 				clause := "markers-show-last-version"
 				// classify: which kind of text is wrong
 				for _, pair := range d {
@@ -205,7 +219,7 @@ func C14(r *core.Run) {
 				if len(p.from.hist) > 0 {
 					// does the same step applied to the pristine tree give the right result?
 					g2, _ := apply(pristine, p.s)
-					if treeHash(g2) == treeHash(want) {
+					if treeHash(c14NoCR(g2)) == treeHash(c14NoCR(want)) {
 						clause = "history-independent"
 					}
 				}
@@ -260,7 +274,6 @@ func C14(r *core.Run) {
 	}
 	lays, d2 := core.Parallel(r, "layout", in{dir, depth}, r.Workers, func(in in, shard, n int, emit func(layRes)) {
 		var o layRes
-		sb := filepath.Join(in.Dir, fmt.Sprint("l", shard))
 		idx := 0
 		for li, lay := range c14Layouts {
 			for _, hist := range [][]step{{{"4.1.0", "2031"}}, {{"4.1.0-rc1", "2025"}, {"v4.2.0", "2031"}}} {
@@ -277,7 +290,11 @@ func C14(r *core.Run) {
 					}
 					return t
 				}
-				os.RemoveAll(sb)
+				os.RemoveAll(filepath.Join(in.Dir, fmt.Sprint("l", shard)))
+				sb := filepath.Join(in.Dir, fmt.Sprint("l", shard))
+				if root, ok := strings.CutPrefix(lay.Name, "root:"); ok {
+					sb = filepath.Join(sb, root)
+				}
 				build("4.0.0", "2024").Materialise(sb)
 				var names []string
 				ok := true
@@ -306,7 +323,7 @@ func C14(r *core.Run) {
 					}
 					want[k] = v
 				}
-				if got := core.ReadTree(sb); treeHash(got) != treeHash(want) {
+				if got := core.ReadTree(sb); treeHash(c14NoCR(got)) != treeHash(c14NoCR(want)) {
 					o.Fails = append(o.Fails, c14Fail{"layout:" + lay.Name, names, fmt.Sprintf("layout %d (%s): files differ from the template filled with the last version and year", li, lay.Name), diffTrees(want, got)})
 				}
 			}
